@@ -33,7 +33,7 @@ class ErrorPath(Suite):
 
     def cases(self, ctx, budget):
         out = []
-        helpers = [None] + sorted(H._helpers())
+        helpers = [None] + sorted(h for h in H._helpers() if h != "send_initialize")
         k = 0
         # every code x shape through send_message; every helper x a few codes/shapes
         for code in CODES:
@@ -55,6 +55,19 @@ class ErrorPath(Suite):
                     k += 1
                     ev = [[7, G.sym_event("N", k=k)], [300, err_event(code, shape, k)], [310, {"k": "resp", "id": "$ID", "p": {}}]]
                     out.append(G.place({"id": None, "helper": h, "D": 1024, "tie": ["events", "timers", "io"][k % 3], "ev": ev}))
+        # send_initialize on its error path: every code x messages that do / do not name the protocol version
+        if "send_initialize" in H._helpers():
+            vm = ["Unsupported protocol version: 1999-01-01", "PROTOCOL VERSION mismatch", "clientInfo.name is required",
+                  "invalid params", "", "protocol  version", "version of the protocol"]
+            for code in CODES:
+                for i, m in enumerate(vm):
+                    k += 1
+                    if budget == "quick" and code not in (-32602, -32008, -32603, -32601, 0) and i % 3:
+                        continue
+                    ev = [[7, G.sym_event("N", k=k)], [300, {"k": "err", "id": "$ID", "code": code, "msg": m}],
+                          [310, {"k": "resp", "id": "$ID", "p": {}}]]
+                    out.append(G.place({"id": None, "helper": "send_initialize", "D": 1024, "tie": ["events", "timers", "io"][k % 3],
+                                        "debug": k % 2 == 0, "ev": ev}))
         rng = ctx.sub_rng("c07", budget)
         n = 4000 if budget == "quick" else 80000
         for _ in range(n):
@@ -77,6 +90,8 @@ class ErrorPath(Suite):
     def model_line(self, case, o=None):
         if o is None or o.get("harness_errors") or o.get("sent_id") is None:
             return None
+        if case.get("helper") == "send_initialize" and _init_maps_to_version_mismatch(case):
+            return None  # the one documented re-mapping of this helper: judged by the oracle only
         return H.model_line(case, o)
 
     def model_obs(self, out, case):
@@ -119,6 +134,11 @@ class ErrorPath(Suite):
                 return ("bool-helper", f"{h} on an error response gave {o['outcome']} {o.get('p')!r}", {"p": False})
             return None
         want_retry = code not in DOCUMENTED_PERMANENT
+        if h == "send_initialize" and _init_maps_to_version_mismatch(case):
+            # documented in send_initialize: INVALID_PARAMS whose message names the protocol version
+            if not (o["outcome"] == "exception" and o.get("exc") == "VersionMismatchError"):
+                return ("initialize-version-mismatch-mapping", f"initialize answered -32602 {ev.get('msg')!r}: {o['outcome']} {o.get('exc')}", None)
+            return None
         if o["outcome"] != "raised":
             return ("error-not-raised", f"first matching message is error {code} but outcome is {o['outcome']} {o.get('p')!r}",
                     {"outcome": "raised", "retryable": want_retry, "code": code})
@@ -131,6 +151,13 @@ class ErrorPath(Suite):
 
     def shrink_candidates(self, case):
         return G.shrink_candidates(case)
+
+
+def _init_maps_to_version_mismatch(case):
+    for _, ev in case["ev"]:
+        if ev["k"] == "err":
+            return ev.get("code") == -32602 and "protocol version" in (ev.get("msg") or "").lower()
+    return False
 
 
 def suites():
